@@ -384,6 +384,7 @@ func runDriver(prop, tier string, seed int64, from, count, nworkers int, verif, 
 	}
 	stats := map[string]int{}
 	distinct := map[string]bool{}
+	measures := map[string]map[string]bool{}
 	var samples []any
 	var simMillis int64
 	procs := 0
@@ -404,6 +405,14 @@ func runDriver(prop, tier string, seed int64, from, count, nworkers int, verif, 
 		mergeStats(stats, o.Stats)
 		for _, d := range o.Distinct {
 			distinct[d] = true
+		}
+		for name, keys := range o.Measures {
+			if measures[name] == nil {
+				measures[name] = map[string]bool{}
+			}
+			for _, k := range keys {
+				measures[name][k] = true
+			}
 		}
 		if o.Sample != nil && len(samples) < 12 {
 			samples = append(samples, o.Sample)
@@ -506,6 +515,7 @@ func runDriver(prop, tier string, seed int64, from, count, nworkers int, verif, 
 		"runs_per_hour":          int(float64(done) / wall * 3600),
 		"seeds":                  fmt.Sprintf("VERIF_SEED=%d, scenario indices 0..%d (one derived PRNG stream per index)", seed, done-1),
 		"counters":               stats,
+		"distinct_by_measure":    measureSizes(measures),
 		"truncated_by_budget":    truncated,
 		"watchdog_inconclusive":  inconclusive,
 		"foreign_violations":     foreignByFP,
@@ -550,6 +560,14 @@ func runDriver(prop, tier string, seed int64, from, count, nworkers int, verif, 
 		return 1
 	}
 	return 0
+}
+
+func measureSizes(m map[string]map[string]bool) map[string]int {
+	out := map[string]int{}
+	for k, v := range m {
+		out[k] = len(v)
+	}
+	return out
 }
 
 var realVsStub = map[string]any{
